@@ -311,6 +311,8 @@ def parse_kani(txt):
             r["undetermined"] += 1
         elif status == "UNSATISFIABLE" and ".cover." in name:
             r.setdefault("covers_unsat", []).append(desc)
+    r["steps"] = sum(int(x) for x in re.findall(r"size of program expression: (\d+) steps", txt))
+    r["vccs"] = sum(int(x) for x in re.findall(r"Generated (\d+) VCC\(s\)", txt))
     r["symex_s"] = sum(float(x) for x in re.findall(r"Runtime Symex: ([\d.e+-]+)s", txt))
     r["solver_s"] = sum(float(x) for x in re.findall(r"Runtime decision procedure: ([\d.e+-]+)s", txt))
     vc = re.findall(r"(\d+) variables, (\d+) clauses", txt)
@@ -721,6 +723,7 @@ def check_property(prop, tier, seed, only=None):
 def write_evidence(prop, tier, seed, jobs, results, steps, confirmed, inconclusive, known_lines, wall, tree, partial=False):
     pid = prop.pid
     samples = []
+    states = transitions = 0
     obligations = discharged = 0
     symex = solver = 0.0
     nontrivial = 0
@@ -735,6 +738,8 @@ def write_evidence(prop, tier, seed, jobs, results, steps, confirmed, inconclusi
             discharged += di
             symex += r.get("symex_s", 0)
             solver += r.get("solver_s", 0)
+            states += r.get("steps", 0)
+            transitions += r.get("vccs", 0)
             if r.get("status") in ("PASS", "TWIN-OK", "KNOWN") and (r.get("covers_sat", 0) > 0 or j.expect != "pass"):
                 nontrivial += 1
             functions.update(j.functions)
@@ -753,6 +758,8 @@ def write_evidence(prop, tier, seed, jobs, results, steps, confirmed, inconclusi
             obligations += r.get("obligations", 0)
             discharged += r.get("discharged", 0)
             solver += r.get("solver_s", 0)
+            states += r.get("blocks_explored", 0)
+            transitions += r.get("solver_queries", 0)
             if r.get("status") in ("PASS", "KNOWN") and r.get("nontrivial", True):
                 nontrivial += r.get("nontrivial_count", 1)
             functions.update(r.get("functions", []))
@@ -769,6 +776,9 @@ def write_evidence(prop, tier, seed, jobs, results, steps, confirmed, inconclusi
                     "kani::any() inputs) or one MIR-derived SMT/fixedpoint query; non-trivial = verdict obtained AND every "
                     "kani::cover! reachability witness of the harness satisfied (vacuity twins and known-finding witnesses count when they fail as required)",
             "samples": samples,
+            "states": max(1, states),
+            "transitions": max(1, transitions),
+            "states_transitions_meaning": "states = symbolic-execution steps of the GOTO programs (CBMC 'size of program expression') plus MIR basic blocks visited by the path enumerator; transitions = verification conditions generated by CBMC plus solver queries (path feasibility, obligations, reachability) issued on the MIR; both measured on this run",
             "obligations": obligations,
             "discharged": discharged,
             "checker_cmd": "cd /verif && ./check %s --tier %s" % (pid, tier),
